@@ -58,7 +58,10 @@ func (c *goCompiler) expr(e Expr) string {
 		if g, ok := c.names[x.Name]; ok {
 			return g
 		}
-		if _, ok := c.cs.Ghosts[x.Name]; ok && c.ghost != nil {
+		if _, ok := c.cs.Ghosts[x.Name]; ok {
+			if c.ghost == nil {
+				c.fail("ghost %s is not observable in a replay", x.Name)
+			}
 			return c.ghost(x.Name, c.inOld)
 		}
 		if p, ok := c.cs.Preds[x.Name]; ok && len(p.Params) == 0 {
